@@ -688,6 +688,28 @@ func c03R2(p *Prog, r *Report) {
 				}
 			}
 		}
+		if same && single {
+			// freshness: no transport I/O between reading the clock and using it
+			_, _, defV, _ := hs.SoleDefRHS(nowAdd)
+			connParam := hs.ParamObj(0)
+			after := hs.G.ReachAfter(defV, func(v *Vertex) bool { return v.ID == add.V }, nil)
+			stale := ""
+			for _, cs := range hs.AllCalls() {
+				if !after[cs.V] || cs.V == defV {
+					continue
+				}
+				// can it still reach Add?
+				if !hs.G.Reach([]int{cs.V}, nil, nil)[add.V] {
+					continue
+				}
+				if usesObj(info, cs.Call, connParam, false) {
+					stale = exprStr(cs.Call) + " at " + cs.Pos()
+				}
+			}
+			r.Check(stale == "", rule, "ss2022.(*StreamServer).HandleStream:now-read-after-last-transport-read", p.posStr(hs.G.V[defV].Node.Pos()),
+				"no call involving the connection lies between reading the clock and SaltPool.Add",
+				"the clock is read before a (blocking, deadline-less) transport operation "+stale+": the timestamp is validated and the salt inserted with a stale time, so a request on an idle connection is accepted outside its window and again after its salt expired")
+		}
 		r.Check(same && single, rule, "ss2022.(*StreamServer).HandleStream:same-now", add.Pos(),
 			"the time validated by the parser and the time the salt is inserted with are one variable with a single time.Now() definition",
 			"the timestamp is validated against one clock reading and the salt inserted with another (a gap between them shifts expiry relative to acceptance)")
